@@ -19,6 +19,7 @@ func init() {
 	replayers["(*Raft).ApplyLog"] = replayQueuedFuture
 	replayers["(*Raft).Barrier"] = replayQueuedFuture
 	replayers["(*Raft).initiateLeadershipTransfer"] = replayQueuedFuture
+	replayers["(*Raft).Restore"] = replayRestoreNoop
 }
 
 func mInt(m map[string]string, k string, def int64) int64 {
@@ -369,6 +370,9 @@ func TestGovcReplay(t *testing.T) {
 
 // NewRaft: restart with RestoreCommittedLogs and a configuration entry at or below the staged commit index.
 func replayNewRaft(m map[string]string, o *Oblig) (string, string, bool) {
+	if strings.Contains(o.Name, "start_up_queue_fits") {
+		return "TestGovcReplay", replayNewRaftQueue, true
+	}
 	if !strings.Contains(o.Name, "config_scan_covers_log") {
 		return "", "", false
 	}
@@ -534,6 +538,104 @@ func TestGovcReplay(t *testing.T) {
 		t.Fatalf("queued_future_has_shutdown_escape violated: %d stranded futures", stranded)
 	}
 	t.Logf("after Shutdown: %d calls queued, all resolved with ErrRaftShutdown", queued)
+}
+`
+	return "TestGovcReplay", test, true
+}
+
+// NewRaft with RestoreCommittedLogs: the committed entries are replayed into the FSM queue (capacity 128
+// batches) before the goroutine that serves it is started.
+const replayNewRaftQueue = `package raft
+
+import (
+	"testing"
+	"time"
+)
+
+func TestGovcReplay(t *testing.T) {
+	store := NewInmemCommitTrackingStore()
+	cfg := Configuration{Servers: []Server{{Suffrage: Voter, ID: "me", Address: "me"}}}
+	logs := []*Log{{Index: 1, Term: 1, Type: LogConfiguration, Data: EncodeConfiguration(cfg)}}
+	const n = 140 // more batches than the FSM queue holds (MaxAppendEntries is 1 below)
+	for i := uint64(2); i <= n; i++ {
+		logs = append(logs, &Log{Index: i, Term: 1, Type: LogCommand, Data: []byte("x")})
+	}
+	if err := store.StoreLogs(logs); err != nil {
+		t.Fatal(err)
+	}
+	_ = store.StageCommitIndex(n)
+	_ = store.SetUint64(keyCurrentTerm, 1)
+	conf := DefaultConfig()
+	conf.LocalID = "me"
+	conf.MaxAppendEntries = 1
+	conf.RestoreCommittedLogs = true
+	_, trans := NewInmemTransport("me")
+	done := make(chan error, 1)
+	go func() {
+		r, err := NewRaft(conf, &MockFSM{}, store, store, NewInmemSnapshotStore(), trans)
+		if err == nil {
+			defer r.Shutdown()
+		}
+		done <- err
+	}()
+	select {
+	case err := <-done:
+		if err != nil {
+			t.Fatalf("NewRaft failed: %v", err)
+		}
+		t.Logf("NewRaft returned with %d committed entries to replay", n-1)
+	case <-time.After(5 * time.Second):
+		t.Fatalf("start_up_queue_fits violated: NewRaft has not returned after 5s: %d committed batches are replayed into the FSM queue (capacity 128) before the goroutine that serves it is started, so the %dth send blocks for ever", n-1, 129)
+	}
+}
+`
+
+// Restore: the server ingests the restore request, answers it, and shuts down before the trailing no-op is
+// served. The no-op future sits on the buffered apply queue without a shutdown escape.
+func replayRestoreNoop(m map[string]string, o *Oblig) (string, string, bool) {
+	if !strings.Contains(o.Name, "queued_future_has_shutdown_escape") {
+		return "", "", false
+	}
+	test := `package raft
+
+import (
+	"bytes"
+	"testing"
+	"time"
+)
+
+func TestGovcReplay(t *testing.T) {
+	stranded := 0
+	for round := 0; round < 12 && stranded == 0; round++ {
+		conf := DefaultConfig()
+		conf.LocalID = "me"
+		conf.skipStartup = true // the harness plays the part of the main loop for exactly one request
+		conf.BatchApplyCh = true
+		store := NewInmemStore()
+		_, trans := NewInmemTransport("me")
+		r, err := NewRaft(conf, &MockFSM{}, store, store, NewInmemSnapshotStore(), trans)
+		if err != nil {
+			t.Fatal(err)
+		}
+		go func() {
+			f := <-r.userRestoreCh // the leader loop ingests the restore ...
+			f.respond(nil)         // ... completes it ...
+			close(r.shutdownCh)    // ... and the server is shut down before the no-op is served
+		}()
+		done := make(chan error, 1)
+		go func() {
+			done <- r.Restore(&SnapshotMeta{Version: SnapshotVersionMax, Index: 1, Term: 1}, bytes.NewReader(nil), 0)
+		}()
+		select {
+		case err := <-done:
+			t.Logf("round %d: Restore returned %v", round, err)
+		case <-time.After(500 * time.Millisecond):
+			stranded++
+		}
+	}
+	if stranded > 0 {
+		t.Fatalf("queued_future_has_shutdown_escape violated: Restore still blocked 500ms after the server was shut down: its trailing no-op was queued on the buffered apply channel, nothing serves the queue and the future has no ShutdownCh")
+	}
 }
 `
 	return "TestGovcReplay", test, true
